@@ -67,3 +67,17 @@ mod tests {
         ));
     }
 }
+
+/// Verification hook: forwards to [`try_version_from_line`] with the
+/// crate-private error type mapped to `is_unknown_file_format`.
+#[cfg(maxohn_rosu_map_verif)]
+pub fn verif_try_version_from_line(line: &str) -> ControlFlow<Result<i32, bool>, ()> {
+    match try_version_from_line(line) {
+        ControlFlow::Continue(()) => ControlFlow::Continue(()),
+        ControlFlow::Break(Ok(v)) => ControlFlow::Break(Ok(v)),
+        ControlFlow::Break(Err(ParseVersionError::UnknownFileFormat)) => {
+            ControlFlow::Break(Err(true))
+        }
+        ControlFlow::Break(Err(ParseVersionError::Number(_))) => ControlFlow::Break(Err(false)),
+    }
+}
